@@ -11,6 +11,7 @@
 import LzModel.Generated.CodeBitset
 import LzModel.BitsetW
 import LzProofs.GenSuffixPropsBase
+import LzProofs.GenBitLemmas
 
 set_option linter.unusedSimpArgs false
 set_option linter.unusedVariables false
@@ -31,7 +32,8 @@ def ans : Option Nat → Int × Bool
 theorem gen_bitset_clear (b : Gen.bitset) (h : BSWF b) :
     ∃ b', bitset_clear b = Res.ok b' ∧ ofBS b' = (ofBS b).clear ∧ BSWF b' := by
   unfold bitset_clear
-  rw [gslice_ok b.a 0 (0 : Int) 0 0 rfl rfl (Nat.le_refl 0) (Nat.zero_le _)]
+  dsimp only
+  rw [gslice_ok _ 0 (0 : Int) 0 0 rfl rfl (Nat.le_refl 0) (Nat.zero_le _)]
   simp only [bind_ok]
   refine ⟨_, rfl, ?_, ?_⟩
   · simp [ofBS, BitsetW.clear]
@@ -67,60 +69,124 @@ theorem ret_val (b : Gen.bitset) (h : BSWF b) (k j : Nat) :
   have hoff : ((ofBS b).off : Int) = b.off := by simp [ofBS, Int.toNat_of_nonneg h.2]
   rw [Int.natCast_add, shl6, Int.natCast_add, hoff]; rfl
 
+/-! ## the two loop shapes
+
+`for { if c { return e, true }; … }` (the loop function only ever exits with code 1 and the
+caller returns `(ret_1, ret_2)`) and `for !c { … }; return e, true` (the loop function exits with
+code 0 when `c` holds and the caller evaluates `e` after the loop) are both covered: the loop
+lemmas are stated about `Res.bind (loop …) F` for a continuation `F` that maps every result `r`
+satisfying `Post` to the final answer.  `Post` allows the exit 0 only together with `W`, the
+statement that the loop function is of the `for !c` shape (one iteration with `c` true exits with
+code 0); against the `for { … }` shape `W` is refutable by unfolding one iteration. -/
+
+def Post (W : Prop) (off : Int) (a : Int × Bool) (r : Nat × Int × Int × Int × Bool) : Prop :=
+  (r.1 = 1 ∧ (r.2.2.2.1, r.2.2.2.2) = a) ∨
+  (r.1 = 0 ∧ W ∧ ((off + r.2.2.1) * (2 : Int) ^ 6 + r.2.1, true) = a)
+
+/-- `bitset_memberBefore_loop_1` is the translation of `for j < 0 { … }` -/
+def WhileB (b : Gen.bitset) : Prop :=
+  ∀ (j k r1 : Int) (r2 : Bool), j ≥ 0 → bitset_memberBefore_loop_1 b 1 j k r1 r2 = Res.ok (0, j, k, r1, r2)
+
+/-- `bitset_memberAfter_loop_1` is the translation of `for j >= 64 { … }` -/
+def WhileA (b : Gen.bitset) : Prop :=
+  ∀ (j k r1 : Int) (r2 : Bool), j < 64 → bitset_memberAfter_loop_1 b 1 j k r1 r2 = Res.ok (0, j, k, r1, r2)
+
+theorem ans_some (b : Gen.bitset) (h : BSWF b) (k j : Nat) :
+    ans (some (((ofBS b).off + k) <<< 6 + j)) = ((b.off + (k : Int)) * (2 : Int) ^ 6 + (j : Int), true) := by
+  have := ret_val b h k j
+  simp only [ans, optInt] at *
+  rw [this]
+
+theorem len_eq (w : UInt64) : bitsLen64 w - 1 = optInt (BitsetW.hiBit w) := by
+  rw [GenBits.bits_len_lz, lz_eq]
+
+/-- the continuation after the loop, applied to a result satisfying `Post`; `hW` refutes the
+    `for !c` shape where the generated code is of the other shape -/
+macro "post_cont" hp:ident : tactic =>
+  `(tactic| (
+    rcases $hp:ident with ⟨h1, he⟩ | ⟨h0, hW, he⟩
+    · rw [← he]
+      try simp [h1]
+    · first
+      | (rw [← he]; (try simp [h0]); done)
+      | (exfalso
+         first
+         | (have hw := hW 0 0 0 false (by omega); unfold bitset_memberBefore_loop_1 at hw; simp at hw; done)
+         | (have hw := hW 0 0 0 false (by omega); unfold bitset_memberAfter_loop_1 at hw; simp at hw; done))))
+
 /-! ## W02 memberBefore -/
 
-theorem before_loop (b : Gen.bitset) (h : BSWF b) :
-    ∀ (k fuel : Nat) (jo : Option Nat) (r1 : Int) (r2 : Bool), k ≤ b.a.len → k < fuel →
-      ∃ k' j', bitset_memberBefore_loop_1 b fuel (k : Int) (optInt jo) r1 r2 =
-        Res.ok (1, k', j',
-          (ans (match jo with
+theorem whileB_or (b : Gen.bitset) (j k r1 : Int) (r2 : Bool) (hj : j ≥ 0) (fuel : Nat) :
+    (∃ x y, bitset_memberBefore_loop_1 b (fuel + 1) j k r1 r2 = Res.ok (1, j, k, x, y) ∧
+      (x, y) = ((b.off + k) * (2 : Int) ^ 6 + j, true)) ∨
+    (bitset_memberBefore_loop_1 b (fuel + 1) j k r1 r2 = Res.ok (0, j, k, r1, r2) ∧ WhileB b) := by
+  first
+  | (left
+     unfold bitset_memberBefore_loop_1
+     dsimp only
+     (repeat' split) <;> first | (exfalso; omega) | exact ⟨_, _, rfl, rfl⟩)
+  | (right
+     refine ⟨?_, ?_⟩
+     · unfold bitset_memberBefore_loop_1
+       dsimp only
+       (repeat' split) <;> first | (exfalso; omega) | rfl
+     · intro j k r1 r2 hj
+       unfold bitset_memberBefore_loop_1
+       dsimp only
+       (repeat' split) <;> first | (exfalso; omega) | rfl)
+
+theorem before_loop (b : Gen.bitset) (h : BSWF b) (F : Nat × Int × Int × Int × Bool → Res (Int × Bool))
+    (a : Int × Bool) (hF : ∀ r, Post (WhileB b) b.off a r → F r = Res.ok a) :
+    ∀ (k fuel : Nat) (jo : Option Nat) (kI jI r1 : Int) (r2 : Bool),
+      kI = (k : Int) → jI = optInt jo → k ≤ b.a.len → k < fuel →
+      a = ans (match jo with
             | some j => some (((ofBS b).off + k) <<< 6 + j)
-            | none => BitsetW.scanDown (ofBS b) k)).1,
-          (ans (match jo with
-            | some j => some (((ofBS b).off + k) <<< 6 + j)
-            | none => BitsetW.scanDown (ofBS b) k)).2) := by
+            | none => BitsetW.scanDown (ofBS b) k) →
+      Res.bind (bitset_memberBefore_loop_1 b fuel jI kI r1 r2) F = Res.ok a := by
   intro k
   induction k with
   | zero =>
-    intro fuel jo r1 r2 _ hf
+    intro fuel jo kI jI r1 r2 hk hj _ hf ha
     obtain ⟨fuel', rfl⟩ : ∃ f, fuel = f + 1 := ⟨fuel - 1, by omega⟩
-    rw [bitset_memberBefore_loop_1]
+    subst hk hj
     cases jo with
     | some j =>
-      have : optInt (some j) ≥ 0 := by simp [optInt]
-      simp only [this, if_true]
-      refine ⟨((0 : Nat) : Int), optInt (some j), ?_⟩
-      rw [ret_val b h 0 j]; rfl
+      rw [ans_some b h] at ha
+      rcases whileB_or b (optInt (some j)) ((0 : Nat) : Int) r1 r2 (by simp [optInt]) fuel' with
+        ⟨x, y, e, hxy⟩ | ⟨e, hW⟩
+      · rw [e, bind_ok]; apply hF; left; exact ⟨rfl, by rw [ha]; exact hxy⟩
+      · rw [e, bind_ok]; apply hF; right; exact ⟨rfl, hW, by rw [ha]; rfl⟩
     | none =>
-      have : ¬ optInt none ≥ 0 := by simp [optInt]
-      simp only [this, if_false]
-      have : ((0 : Nat) : Int) - 1 < 0 := by omega
-      simp only [this, if_true]
-      exact ⟨_, _, rfl⟩
+      unfold bitset_memberBefore_loop_1
+      dsimp only
+      (repeat' split) <;> first
+        | (exfalso; simp [optInt] at *; done)
+        | (exfalso; omega)
+        | (rw [bind_ok]; apply hF; left; exact ⟨rfl, by rw [ha]; rfl⟩)
   | succ k ih =>
-    intro fuel jo r1 r2 hk hf
+    intro fuel jo kI jI r1 r2 hk hj hkl hf ha
     obtain ⟨fuel', rfl⟩ : ∃ f, fuel = f + 1 := ⟨fuel - 1, by omega⟩
-    rw [bitset_memberBefore_loop_1]
+    subst hk hj
     cases jo with
     | some j =>
-      have : optInt (some j) ≥ 0 := by simp [optInt]
-      simp only [this, if_true]
-      refine ⟨((k + 1 : Nat) : Int), optInt (some j), ?_⟩
-      rw [ret_val b h (k + 1) j]; rfl
+      rw [ans_some b h] at ha
+      rcases whileB_or b (optInt (some j)) ((k + 1 : Nat) : Int) r1 r2 (by simp [optInt]) fuel' with
+        ⟨x, y, e, hxy⟩ | ⟨e, hW⟩
+      · rw [e, bind_ok]; apply hF; left; exact ⟨rfl, by rw [ha]; exact hxy⟩
+      · rw [e, bind_ok]; apply hF; right; exact ⟨rfl, hW, by rw [ha]; rfl⟩
     | none =>
-      have : ¬ optInt none ≥ 0 := by simp [optInt]
-      simp only [this, if_false]
-      have hk1 : ((k + 1 : Nat) : Int) - 1 = (k : Int) := by omega
-      have : ¬ (((k + 1 : Nat) : Int) - 1 < 0) := by omega
-      simp only [this, if_false, hk1]
-      rw [gindex_ok (0 : UInt64) b.a (k : Int) k rfl (by omega)]
-      simp only [bind_ok]
-      rw [lz_eq, rd_eq]
-      obtain ⟨k', j', e⟩ := ih fuel' (BitsetW.hiBit (BitsetW.rd (ofBS b).backing k)) r1 r2 (by omega) (by omega)
-      refine ⟨k', j', ?_⟩
-      rw [e]
-      simp only [BitsetW.scanDown]
-      cases BitsetW.hiBit (BitsetW.rd (ofBS b).backing k) <;> rfl
+      unfold bitset_memberBefore_loop_1
+      dsimp only
+      (repeat' split) <;> first
+        | (exfalso; simp [optInt] at *; done)
+        | (exfalso; omega)
+        | (rw [gindex_ok (0 : UInt64) b.a _ k (by omega) (by omega)]
+           simp only [bind_ok, lz_eq, len_eq, rd_eq]
+           refine ih fuel' (BitsetW.hiBit (BitsetW.rd (ofBS b).backing k)) _ _ r1 r2 (by omega) rfl
+             (by omega) (by omega) ?_
+           rw [ha]
+           simp only [BitsetW.scanDown]
+           rfl)
 
 theorem shr6 (i : Nat) : ((i : Int) >>> (6 : Nat)) = ((i >>> 6 : Nat) : Int) := by
   rw [Int.shiftRight_eq_div_pow, Nat.shiftRight_eq_div_pow]; simp
@@ -136,42 +202,59 @@ theorem mask_eq (i : Nat) :
   rw [h1]
   exact mask_fin ⟨i &&& 63, h2⟩
 
+theorem mask_lt_fin : ∀ m : Fin 64, (UInt64.ofInt ((m.val : Nat) : Int)).toNat < 64 := by decide
+
+/-- `^uint64(0) << (i&63)` is the mask `^(1<<(i&63) - 1)` of the model -/
+theorem mask_not_eq (i : Nat) :
+    shlU64 (~~~(0 : UInt64)) (UInt64.ofInt (iand (i : Int) 63)).toNat =
+      ~~~((1 : UInt64) <<< (i &&& 63).toUInt64 - 1) := by
+  have h1 : iand (i : Int) 63 = ((i &&& 63 : Nat) : Int) := rfl
+  have h2 : i &&& 63 < 64 := by
+    have := @Nat.and_le_right i 63; omega
+  rw [GenBits.shl_ones _ (by rw [h1]; exact mask_lt_fin ⟨i &&& 63, h2⟩), mask_eq]
+
 /-- W02 -/
 theorem gen_bitset_memberBefore (fuel : Nat) (b : Gen.bitset) (h : BSWF b) (i : Nat) (hf : b.a.len + 1 < fuel) :
     bitset_memberBefore fuel b (i : Int) = Res.ok (ans ((ofBS b).memberBefore i)) := by
-  unfold bitset_memberBefore BitsetW.memberBefore
+  unfold bitset_memberBefore
   rw [shr6]
   have hoff : ((ofBS b).off : Int) = b.off := by simp [ofBS, Int.toNat_of_nonneg h.2]
   have hlen : (ofBS b).len = b.a.len := rfl
+  have hlenI : Int.ofNat b.a.len = (b.a.len : Int) := rfl
+  dsimp only
+  simp only [hlenI]
   by_cases h1 : i >>> 6 < (ofBS b).off
-  · have : ((i >>> 6 : Nat) : Int) - b.off < 0 := by omega
-    simp only [this, h1, if_true, ans]
-  · have h1' : ¬ (((i >>> 6 : Nat) : Int) - b.off < 0) := by omega
-    simp only [h1', h1, if_false]
-    have hk : ((i >>> 6 : Nat) : Int) - b.off = ((i >>> 6 - (ofBS b).off : Nat) : Int) := by omega
-    rw [hk]
-    generalize hkk : i >>> 6 - (ofBS b).off = k
-    by_cases h2 : k < (ofBS b).len
-    · have h2' : (k : Int) < Int.ofNat b.a.len := by show (k : Int) < (b.a.len : Int); rw [hlen] at h2; omega
-      have h2'' : ¬ ((k : Int) ≥ Int.ofNat b.a.len) := by omega
-      simp only [h2, h2', h2'', if_true, if_false]
-      rw [gindex_ok (0 : UInt64) b.a (k : Int) k rfl (by rw [hlen] at h2; exact h2)]
-      simp only [bind_ok]
-      rw [lz_eq, rd_eq, mask_eq]
-      obtain ⟨k', j', e⟩ := before_loop b h k fuel
-        (BitsetW.hiBit (BitsetW.rd (ofBS b).backing k &&& ((1 : UInt64) <<< (i &&& 63).toUInt64 - 1))) 0 false
-        (by rw [hlen] at h2; omega) (by rw [hlen] at h2; omega)
-      rw [e]
-      simp only [bind_ok]
-      cases BitsetW.hiBit (BitsetW.rd (ofBS b).backing k &&& ((1 : UInt64) <<< (i &&& 63).toUInt64 - 1)) <;> rfl
-    · have h2' : ¬ ((k : Int) < Int.ofNat b.a.len) := by
-        show ¬ ((k : Int) < (b.a.len : Int)); rw [hlen] at h2; omega
-      have h2'' : (k : Int) ≥ Int.ofNat b.a.len := by omega
-      simp only [h2, h2', h2'', if_true, if_false, bind_ok]
-      obtain ⟨k', j', e⟩ := before_loop b h b.a.len fuel none 0 false (Nat.le_refl _) (by omega)
-      have e' : bitset_memberBefore_loop_1 b fuel (Int.ofNat b.a.len) (-1) 0 false = _ := e
-      rw [e']
-      simp only [bind_ok, hlen]
+  · (repeat' split) <;> first
+      | (exfalso; omega)
+      | (unfold BitsetW.memberBefore; rw [if_pos h1]; rfl)
+  · by_cases h2 : i >>> 6 - (ofBS b).off < (ofBS b).len
+    · have ha : ans ((ofBS b).memberBefore i) = ans (match
+          (BitsetW.hiBit (BitsetW.rd (ofBS b).backing (i >>> 6 - (ofBS b).off) &&&
+            ((1 : UInt64) <<< (i &&& 63).toUInt64 - 1))) with
+          | some j => some (((ofBS b).off + (i >>> 6 - (ofBS b).off)) <<< 6 + j)
+          | none => BitsetW.scanDown (ofBS b) (i >>> 6 - (ofBS b).off)) := by
+        (unfold BitsetW.memberBefore; rw [if_neg h1]; dsimp only; rw [if_pos h2]) <;> rfl
+      rw [hlen] at h2
+      (repeat' split) <;> first
+        | (exfalso; omega)
+        | (rw [gindex_ok (0 : UInt64) b.a _ (i >>> 6 - (ofBS b).off) (by omega) h2]
+           simp only [bind_ok, lz_eq, len_eq, rd_eq, mask_eq]
+           refine before_loop b h _ _ ?_ (i >>> 6 - (ofBS b).off) fuel
+             (BitsetW.hiBit (BitsetW.rd (ofBS b).backing (i >>> 6 - (ofBS b).off) &&&
+               ((1 : UInt64) <<< (i &&& 63).toUInt64 - 1))) _ _ _ _ (by omega) rfl (by omega) (by omega) ha
+           intro r hp
+           post_cont hp)
+    · have ha : ans ((ofBS b).memberBefore i) = ans (match (none : Option Nat) with
+          | some j => some (((ofBS b).off + b.a.len) <<< 6 + j)
+          | none => BitsetW.scanDown (ofBS b) b.a.len) := by
+        (unfold BitsetW.memberBefore; rw [if_neg h1]; dsimp only; rw [if_neg h2]) <;> rfl
+      rw [hlen] at h2
+      (repeat' split) <;> first
+        | (exfalso; omega)
+        | (simp only [bind_ok]
+           refine before_loop b h _ _ ?_ b.a.len fuel none _ _ _ _ rfl rfl (Nat.le_refl _) (by omega) ha
+           intro r hp
+           post_cont hp)
 
 /-! ## W03 memberAfter -/
 
@@ -204,108 +287,139 @@ theorem tz_eq (w : UInt64) : trailingZeros64 w = optInt64 (BitsetW.loBit w) := b
 theorem loBit_lt (w : UInt64) (j : Nat) (h : BitsetW.loBit w = some j) : j < 64 := by
   have := loBitFrom_lt w 64 0 j h; omega
 
-theorem after_loop (b : Gen.bitset) (h : BSWF b) :
-    ∀ (n kn fuel : Nat) (jo : Option Nat) (r1 : Int) (r2 : Bool), n = b.a.len - kn → n < fuel →
+theorem whileA_or (b : Gen.bitset) (j k r1 : Int) (r2 : Bool) (hj : j < 64) (fuel : Nat) :
+    (∃ x y, bitset_memberAfter_loop_1 b (fuel + 1) j k r1 r2 = Res.ok (1, j, k, x, y) ∧
+      (x, y) = ((b.off + k) * (2 : Int) ^ 6 + j, true)) ∨
+    (bitset_memberAfter_loop_1 b (fuel + 1) j k r1 r2 = Res.ok (0, j, k, r1, r2) ∧ WhileA b) := by
+  first
+  | (left
+     unfold bitset_memberAfter_loop_1
+     dsimp only
+     (repeat' split) <;> first | (exfalso; omega) | exact ⟨_, _, rfl, rfl⟩)
+  | (right
+     refine ⟨?_, ?_⟩
+     · unfold bitset_memberAfter_loop_1
+       dsimp only
+       (repeat' split) <;> first | (exfalso; omega) | rfl
+     · intro j k r1 r2 hj
+       unfold bitset_memberAfter_loop_1
+       dsimp only
+       (repeat' split) <;> first | (exfalso; omega) | rfl)
+
+theorem after_loop (b : Gen.bitset) (h : BSWF b) (F : Nat × Int × Int × Int × Bool → Res (Int × Bool))
+    (a : Int × Bool) (hF : ∀ r, Post (WhileA b) b.off a r → F r = Res.ok a) :
+    ∀ (n kn fuel : Nat) (jo : Option Nat) (kI jI r1 : Int) (r2 : Bool),
+      kI = (kn : Int) - 1 → jI = optInt64 jo → n = b.a.len - kn → n < fuel →
       (∀ j, jo = some j → 1 ≤ kn ∧ j < 64) →
-      ∃ k' j', bitset_memberAfter_loop_1 b fuel ((kn : Int) - 1) (optInt64 jo) r1 r2 =
-        Res.ok (1, k', j',
-          (ans (match jo with
+      a = ans (match jo with
             | some j => some (((ofBS b).off + (kn - 1)) <<< 6 + j)
-            | none => BitsetW.scanUpAux (ofBS b) kn n)).1,
-          (ans (match jo with
-            | some j => some (((ofBS b).off + (kn - 1)) <<< 6 + j)
-            | none => BitsetW.scanUpAux (ofBS b) kn n)).2) := by
+            | none => BitsetW.scanUpAux (ofBS b) kn n) →
+      Res.bind (bitset_memberAfter_loop_1 b fuel jI kI r1 r2) F = Res.ok a := by
+  have hlenI : Int.ofNat b.a.len = (b.a.len : Int) := rfl
   intro n
   induction n with
   | zero =>
-    intro kn fuel jo r1 r2 hn hf hjo
+    intro kn fuel jo kI jI r1 r2 hk hj hn hf hjo ha
     obtain ⟨fuel', rfl⟩ : ∃ f, fuel = f + 1 := ⟨fuel - 1, by omega⟩
-    rw [bitset_memberAfter_loop_1]
+    subst hk hj
     cases jo with
     | some j =>
       obtain ⟨hk1, hj⟩ := hjo j rfl
-      have : optInt64 (some j) < 64 := by simp [optInt64]; omega
-      simp only [this, if_true]
-      refine ⟨(kn : Int) - 1, optInt64 (some j), ?_⟩
+      rw [ans_some b h] at ha
       have hkn : (kn : Int) - 1 = ((kn - 1 : Nat) : Int) := by omega
-      rw [hkn, show optInt64 (some j) = optInt (some j) from rfl, ret_val b h (kn - 1) j]; rfl
+      rcases whileA_or b (optInt64 (some j)) ((kn : Int) - 1) r1 r2 (by simp [optInt64]; omega) fuel' with
+        ⟨x, y, e, hxy⟩ | ⟨e, hW⟩
+      · rw [e, bind_ok]; apply hF; left; exact ⟨rfl, by rw [ha, ← hkn]; exact hxy⟩
+      · rw [e, bind_ok]; apply hF; right; exact ⟨rfl, hW, by rw [ha, ← hkn]; rfl⟩
     | none =>
-      have : ¬ optInt64 none < 64 := by simp [optInt64]
-      simp only [this, if_false]
-      have : (kn : Int) - 1 + 1 ≥ Int.ofNat b.a.len := by show (kn : Int) - 1 + 1 ≥ (b.a.len : Int); omega
-      simp only [this, if_true]
-      exact ⟨_, _, rfl⟩
+      unfold bitset_memberAfter_loop_1
+      dsimp only
+      simp only [hlenI]
+      (repeat' split) <;> first
+        | (exfalso; simp [optInt64] at *; done)
+        | (exfalso; omega)
+        | (rw [bind_ok]; apply hF; left; exact ⟨rfl, by rw [ha]; rfl⟩)
   | succ n ih =>
-    intro kn fuel jo r1 r2 hn hf hjo
+    intro kn fuel jo kI jI r1 r2 hk hj hn hf hjo ha
     obtain ⟨fuel', rfl⟩ : ∃ f, fuel = f + 1 := ⟨fuel - 1, by omega⟩
-    rw [bitset_memberAfter_loop_1]
+    subst hk hj
     cases jo with
     | some j =>
       obtain ⟨hk1, hj⟩ := hjo j rfl
-      have : optInt64 (some j) < 64 := by simp [optInt64]; omega
-      simp only [this, if_true]
-      refine ⟨(kn : Int) - 1, optInt64 (some j), ?_⟩
+      rw [ans_some b h] at ha
       have hkn : (kn : Int) - 1 = ((kn - 1 : Nat) : Int) := by omega
-      rw [hkn, show optInt64 (some j) = optInt (some j) from rfl, ret_val b h (kn - 1) j]; rfl
+      rcases whileA_or b (optInt64 (some j)) ((kn : Int) - 1) r1 r2 (by simp [optInt64]; omega) fuel' with
+        ⟨x, y, e, hxy⟩ | ⟨e, hW⟩
+      · rw [e, bind_ok]; apply hF; left; exact ⟨rfl, by rw [ha, ← hkn]; exact hxy⟩
+      · rw [e, bind_ok]; apply hF; right; exact ⟨rfl, hW, by rw [ha, ← hkn]; rfl⟩
     | none =>
-      have : ¬ optInt64 none < 64 := by simp [optInt64]
-      simp only [this, if_false]
-      have hk1 : (kn : Int) - 1 + 1 = (kn : Int) := by omega
-      have : ¬ ((kn : Int) ≥ Int.ofNat b.a.len) := by show ¬ ((kn : Int) ≥ (b.a.len : Int)); omega
-      simp only [hk1, this, if_false]
-      rw [gindex_ok (0 : UInt64) b.a (kn : Int) kn rfl (by omega)]
-      simp only [bind_ok]
-      rw [tz_eq, rd_eq]
-      have hkn1 : (kn : Int) = ((kn + 1 : Nat) : Int) - 1 := by omega
-      rw [hkn1]
-      obtain ⟨k', j', e⟩ := ih (kn + 1) fuel' (BitsetW.loBit (BitsetW.rd (ofBS b).backing kn)) r1 r2 (by omega) (by omega)
-        (fun j hj => ⟨by omega, loBit_lt _ j hj⟩)
-      refine ⟨k', j', ?_⟩
-      rw [e]
-      have hge : ¬ (kn ≥ (ofBS b).len) := by show ¬ (kn ≥ b.a.len); omega
-      simp only [BitsetW.scanUpAux, hge, if_false, Nat.add_sub_cancel]
-      cases BitsetW.loBit (BitsetW.rd (ofBS b).backing kn) <;> rfl
+      unfold bitset_memberAfter_loop_1
+      dsimp only
+      simp only [hlenI]
+      (repeat' split) <;> first
+        | (exfalso; simp [optInt64] at *; done)
+        | (exfalso; omega)
+        | (rw [gindex_ok (0 : UInt64) b.a _ kn (by omega) (by omega)]
+           simp only [bind_ok, tz_eq, rd_eq]
+           refine ih (kn + 1) fuel' (BitsetW.loBit (BitsetW.rd (ofBS b).backing kn)) _ _ r1 r2 (by omega) rfl
+             (by omega) (by omega) (fun j hj => ⟨by omega, loBit_lt _ j hj⟩) ?_
+           have hge : ¬ (kn ≥ (ofBS b).len) := by show ¬ (kn ≥ b.a.len); omega
+           rw [ha]
+           simp only [BitsetW.scanUpAux, hge, if_false, Nat.add_sub_cancel]
+           rfl)
 
 /-- W03 -/
 theorem gen_bitset_memberAfter (fuel : Nat) (b : Gen.bitset) (h : BSWF b) (i : Nat) (hf : b.a.len + 1 < fuel) :
     bitset_memberAfter fuel b (i : Int) = Res.ok (ans ((ofBS b).memberAfter i)) := by
-  unfold bitset_memberAfter BitsetW.memberAfter
+  unfold bitset_memberAfter
   have hi1 : (i : Int) + 1 = ((i + 1 : Nat) : Int) := by omega
+  dsimp only
   simp only [hi1]
   rw [shr6]
   have hoff : ((ofBS b).off : Int) = b.off := by simp [ofBS, Int.toNat_of_nonneg h.2]
   have hlen : (ofBS b).len = b.a.len := rfl
+  have hlenI : Int.ofNat b.a.len = (b.a.len : Int) := rfl
+  simp only [hlenI]
   by_cases h1 : (i + 1) >>> 6 ≥ (ofBS b).off + (ofBS b).len
-  · have : (((i + 1) >>> 6 : Nat) : Int) - b.off ≥ Int.ofNat b.a.len := by
-      show (((i + 1) >>> 6 : Nat) : Int) - b.off ≥ (b.a.len : Int); rw [hlen] at h1; omega
-    simp only [this, h1, if_true, ans]
-  · have h1' : ¬ ((((i + 1) >>> 6 : Nat) : Int) - b.off ≥ Int.ofNat b.a.len) := by
-      show ¬ ((((i + 1) >>> 6 : Nat) : Int) - b.off ≥ (b.a.len : Int)); rw [hlen] at h1; omega
-    simp only [h1', h1, if_false]
-    by_cases h2 : (ofBS b).off ≤ (i + 1) >>> 6
-    · have h2' : (((i + 1) >>> 6 : Nat) : Int) - b.off ≥ 0 := by omega
-      simp only [h2, h2', if_true]
-      have hk : (((i + 1) >>> 6 : Nat) : Int) - b.off = (((i + 1) >>> 6 - (ofBS b).off : Nat) : Int) := by omega
-      rw [hk]
-      generalize hkk : (i + 1) >>> 6 - (ofBS b).off = k
-      have hklt : k < b.a.len := by rw [hlen] at h1; omega
-      rw [gindex_ok (0 : UInt64) b.a (k : Int) k rfl hklt]
-      simp only [bind_ok]
-      rw [tz_eq, rd_eq, mask_eq]
-      have hk1 : (k : Int) = ((k + 1 : Nat) : Int) - 1 := by omega
-      rw [hk1]
-      obtain ⟨k', j', e⟩ := after_loop b h (b.a.len - (k + 1)) (k + 1) fuel
-        (BitsetW.loBit (BitsetW.rd (ofBS b).backing k &&& ~~~((1 : UInt64) <<< ((i + 1) &&& 63).toUInt64 - 1))) 0 false
-        rfl (by omega) (fun j hj => ⟨by omega, loBit_lt _ j hj⟩)
-      rw [e]
-      simp only [bind_ok, BitsetW.scanUp, hlen, Nat.add_sub_cancel]
-      cases BitsetW.loBit (BitsetW.rd (ofBS b).backing k &&& ~~~((1 : UInt64) <<< ((i + 1) &&& 63).toUInt64 - 1)) <;> rfl
-    · have h2' : ¬ ((((i + 1) >>> 6 : Nat) : Int) - b.off ≥ 0) := by omega
-      simp only [h2, h2', if_false, bind_ok]
-      obtain ⟨k', j', e⟩ := after_loop b h (b.a.len - 0) 0 fuel none 0 false rfl (by omega) (fun j hj => by simp at hj)
-      have e' : bitset_memberAfter_loop_1 b fuel (-1) 64 0 false = _ := e
-      rw [e']
-      simp only [bind_ok, BitsetW.scanUp, hlen]
+  · have h1' := h1
+    rw [hlen] at h1'
+    (repeat' split) <;> first
+      | (exfalso; omega)
+      | (unfold BitsetW.memberAfter; dsimp only; rw [if_pos h1]; rfl)
+  · by_cases h2 : (ofBS b).off ≤ (i + 1) >>> 6
+    · have ha : ans ((ofBS b).memberAfter i) = ans (match
+          (BitsetW.loBit (BitsetW.rd (ofBS b).backing ((i + 1) >>> 6 - (ofBS b).off) &&&
+            ~~~((1 : UInt64) <<< ((i + 1) &&& 63).toUInt64 - 1))) with
+          | some j => some (((ofBS b).off + ((i + 1) >>> 6 - (ofBS b).off + 1 - 1)) <<< 6 + j)
+          | none => BitsetW.scanUpAux (ofBS b) ((i + 1) >>> 6 - (ofBS b).off + 1)
+              (b.a.len - ((i + 1) >>> 6 - (ofBS b).off + 1))) := by
+        (unfold BitsetW.memberAfter; dsimp only; rw [if_neg h1, if_pos h2]
+         simp only [BitsetW.scanUp, hlen, Nat.add_sub_cancel]) <;> rfl
+      rw [hlen] at h1
+      (repeat' split) <;> first
+        | (exfalso; omega)
+        | (rw [gindex_ok (0 : UInt64) b.a _ ((i + 1) >>> 6 - (ofBS b).off) (by omega) (by omega)]
+           simp only [bind_ok, tz_eq, rd_eq, mask_eq, mask_not_eq]
+           refine after_loop b h _ _ ?_ (b.a.len - ((i + 1) >>> 6 - (ofBS b).off + 1))
+             ((i + 1) >>> 6 - (ofBS b).off + 1) fuel
+             (BitsetW.loBit (BitsetW.rd (ofBS b).backing ((i + 1) >>> 6 - (ofBS b).off) &&&
+               ~~~((1 : UInt64) <<< ((i + 1) &&& 63).toUInt64 - 1))) _ _ _ _ (by omega) rfl rfl (by omega)
+             (fun j hj => ⟨by omega, loBit_lt _ j hj⟩) ha
+           intro r hp
+           post_cont hp)
+    · have ha : ans ((ofBS b).memberAfter i) = ans (match (none : Option Nat) with
+          | some j => some (((ofBS b).off + (0 - 1)) <<< 6 + j)
+          | none => BitsetW.scanUpAux (ofBS b) 0 (b.a.len - 0)) := by
+        (unfold BitsetW.memberAfter; dsimp only; rw [if_neg h1, if_neg h2]
+         simp only [BitsetW.scanUp, hlen]) <;> rfl
+      rw [hlen] at h1
+      (repeat' split) <;> first
+        | (exfalso; omega)
+        | (simp only [bind_ok]
+           refine after_loop b h _ _ ?_ (b.a.len - 0) 0 fuel none _ _ _ _ (by omega) rfl rfl (by omega)
+             (fun j hj => by simp at hj) ha
+           intro r hp
+           post_cont hp)
 
 end LZ.GenBitset
 
